@@ -64,7 +64,7 @@ func H_unvendor() {
 	vA("C14", name == "dep", "a free package name is used as is")
 	vA("C16", len(g.imports) == 1, "one import is recorded")
 	for key, info := range g.imports {
-		vA("C16", canonicalIs(path, key), "imports are recorded under the canonical (un-vendored) path")
+		vA("C16,C15,C01", canonicalIs(path, key), "imports are recorded under the canonical (un-vendored) path")
 		vA("C14", info.name == name && !info.differs, "the recorded name is the one handed out")
 	}
 	again := g.qualifyImport("other", path)
